@@ -142,46 +142,29 @@ Qed.
 Lemma item_toks_restyle c its : item_toks (map (restyle_item c) its) = item_toks its.
 Proof. unfold item_toks. rewrite map_map. apply map_ext. now intros [cs t]. Qed.
 
-(* the comments [norm] does not print: own-line comments after the last token of the file *)
-Definition unprinted (c : fmt_config) (ts : list elt) : list com :=
-  let (its, tail) := to_items [] ts in
-  let (out, tl1) := run c st0 [] (map (restyle_item c) its) in
-  snd (keep_tail out (tl1 ++ map (restyle c) tail)).
-
 Lemma keep_tail_app out t : fst (keep_tail out t) ++ snd (keep_tail out t) = t.
 Proof. destruct out; simpl; auto. apply split_lf0_app. Qed.
 
 Lemma keep_tail_fst_lf0 out t : Forall (fun x => clf x = false) (fst (keep_tail out t)).
 Proof. destruct out; simpl; [constructor|]. apply split_lf0_fst_lf0. Qed.
 
+(* every comment is printed: those of the tokens by the pass, those behind the last token after it
+   (the ones on its line trail the last declaration, the others follow on lines of their own) *)
 Theorem norm_comments c ts :
   sort_declaration c = false ->
-  comments (norm c ts) ++ unprinted c ts = map (restyle c) (comments ts).
+  comments (norm c ts) = map (restyle c) (comments ts).
 Proof.
-  intros Hs. unfold norm, unprinted, norm_items.
+  intros Hs. unfold norm, norm_items.
   destruct (to_items [] ts) as [its tail] eqn:Et.
   destruct (run c st0 [] (map (restyle_item c) its)) as [out tl1] eqn:Er.
   pose proof (keep_tail_app out (tl1 ++ map (restyle c) tail)) as Hsp.
   destruct (keep_tail out (tl1 ++ map (restyle c) tail)) as [tr rest] eqn:Es. simpl in Hsp.
   apply run_comments in Er. simpl in Er. rewrite item_comments_restyle in Er.
   apply to_items_comments in Et. simpl in Et.
-  assert (Hgoal : comments (of_items out tr) ++ rest = map (restyle c) (comments ts)).
-  { rewrite comments_of_items, <- app_assoc, Hsp, app_assoc, Er, <- map_app, Et. reflexivity. }
+  assert (Hgoal : comments (of_items out (tr ++ rest)) = map (restyle c) (comments ts)).
+  { rewrite comments_of_items, Hsp, app_assoc, Er, <- map_app, Et. reflexivity. }
   destruct (chunks 0 [] out) as [gs0 rest0]. destruct rest0; [|exact Hgoal].
   rewrite Hs. exact Hgoal.
-Qed.
-
-(* the unprinted comments: all of them when the output has no token at all, otherwise the
-   comments after the last token from the first own-line comment on *)
-Lemma unprinted_own_line c ts :
-  significant (norm c ts) = []
-  \/ match unprinted c ts with [] => True | x :: _ => clf x = true end.
-Proof.
-  unfold unprinted, norm, norm_items. destruct (to_items [] ts) as [its tail] eqn:Et.
-  destruct (run c st0 [] (map (restyle_item c) its)) as [out tl1].
-  destruct out as [|o1 out].
-  - left. simpl. destruct (sort_declaration c); reflexivity.
-  - right. simpl. apply split_lf0_snd_head.
 Qed.
 
 (* restyle changes the marker only: the line-feed bit is kept, and the text is kept from the
